@@ -326,7 +326,7 @@ func runC07(c *Ctx) error {
 	}
 
 	// ---------------- family 1: rebuild in process ----------------
-	fam := c.Rep.Family("rebuild-in-process", "random content lists (genPkgSpec: files, configs, globs, dirs, symlinks, trees, ghosts, docs, per-entry file_info incl. explicit mtimes, deb/rpm compressors) with mtime forced to 1700000000, rpm build host fixed, optional scripts, x 5 formats; package A is rebuilt immediately, after the wall-clock second changed (one 1.2 s sleep), under GOMAXPROCS 1/2/4/16, and from the tree root with every source path rewritten to a relative one; every rebuild must be byte-identical to A; one evaluation per (spec, format, variant); non-trivial = A built and has more than one payload member")
+	fam := c.Rep.Family("rebuild-in-process", "random content lists (genPkgSpec: files, configs, globs, dirs, symlinks, trees, ghosts, docs, per-entry file_info incl. explicit mtimes, deb/rpm compressors; the first spec carries one compressible file larger than every compressor block) with mtime forced to 1700000000, rpm build host fixed, optional scripts, x 5 formats; package A is rebuilt immediately, after the wall-clock second changed (one 1.2 s sleep), under GOMAXPROCS 1/2/4/16, and from the tree root with every source path rewritten to a relative one; every rebuild must be byte-identical to A; one evaluation per (spec, format, variant); non-trivial = A built and has more than one payload member")
 	n := c.N(25, 400)
 	var built []*c07Built
 	evalKeyExtra := "" // distinguishes the GOMAXPROCS values inside the gomaxprocs variant
@@ -346,8 +346,26 @@ func runC07(c *Ctx) error {
 	}
 	// timestamps family is fed from the same packages
 	famT := c.Rep.Family("timestamps", "every package A of rebuild-in-process plus specs in which every entry carries an explicit per-entry mtime (1500000000..1500100000), mtime 1700000000: the package is decoded by the independent readers and EVERY stored timestamp is collected (ar member headers; tar member headers and PAX time records of deb control+data, ipk outer+control+data, every apk segment, archlinux incl. .PKGINFO/.MTREE/.INSTALL; every gzip header MTIME incl. the rpm payload's; rpm BUILDTIME, FILEMTIMES, CHANGELOGTIME and cpio member times; archlinux builddate and every .MTREE time=) and must lie in {configured mtime} ∪ {explicit per-entry mtimes} ∪ {on-disk mtimes of the source tree and script files, all pinned years before the run} ∪ {0, 2288912640 (unset markers)}; one evaluation per package; non-trivial = more than one payload member; the distribution counts timestamps per format and location class")
+	// a payload larger than any compressor block (pgzip 1 MiB, zstd 128 KiB): compressible text, so that block
+	// boundaries matter; it goes through every rebuild variant, GOMAXPROCS 1/2/4/16 included
+	bigPath := filepath.Join(c.Tmp, "c07-big.txt")
+	{
+		var bb bytes.Buffer
+		for i := 0; bb.Len() < c.N(1536<<10, 5<<20); i++ {
+			fmt.Fprintf(&bb, "line %08d of the reproducibility payload: the quick brown fox jumps over the lazy dog\n", i)
+		}
+		if err := os.WriteFile(bigPath, bb.Bytes(), 0o644); err != nil {
+			return err
+		}
+		_ = os.Chtimes(bigPath, time.Unix(1600004000, 0), time.Unix(1600004000, 0))
+		disk[1600004000] = true
+	}
 	for i := 0; i < n; i++ {
 		s := genPkgSpec(r, tree)
+		if i == 0 {
+			s = &PkgSpec{Raw: []wire.Content{{Src: bigPath, Dst: "/usr/share/big/payload.txt"}, {Src: filepath.Join(tree.Root, "bin/tool"), Dst: "/usr/bin/tool"}},
+				Umask: 0o022, Describe: map[string]any{"payload": "one compressible file larger than every compressor block"}}
+		}
 		s.MTime = c07MTime
 		if r.Bool() {
 			withScripts(s)
